@@ -21,12 +21,19 @@ class Cylinder(SampleShape):
         self, start_point: sc.Variable, direction: sc.Variable
     ) -> sc.Variable:
         """Length of intersection between beam and cylinder"""
-        base_point = self.center_of_base - start_point
+        unit = start_point.unit
+        base_point = self.center_of_base.to(unit=unit, copy=False) - start_point
         cyl_intersection, *cyl_interval = _line_infinite_cylinder_intersection(
-            self.symmetry_line, base_point, self.radius, direction
+            self.symmetry_line,
+            base_point,
+            self.radius.to(unit=unit, copy=False),
+            direction,
         )
         slab_intersection, *slab_interval = _line_slab_intersection(
-            self.symmetry_line, base_point, self.height, direction
+            self.symmetry_line,
+            base_point,
+            self.height.to(unit=unit, copy=False),
+            direction,
         )
         return sc.where(
             cyl_intersection & slab_intersection,
@@ -36,7 +43,9 @@ class Cylinder(SampleShape):
 
     @property
     def center(self) -> sc.Variable:
-        return self.center_of_base + self.symmetry_line * self.height / 2
+        return self.center_of_base + (self.symmetry_line * self.height / 2).to(
+            unit=self.center_of_base.unit, copy=False
+        )
 
     @property
     def volume(self) -> sc.Variable:
